@@ -119,8 +119,18 @@ fn probe(args: &[String]) -> i32 {
         "strict" => sim::Mode::Strict(case.trace.clone()),
         "sparse" => sim::Mode::Sparse { overrides: case.preemptions.clone(), randoms: case.trace.randoms.clone() },
         "diff" => sim::Mode::Diff(case.trace.clone()),
+        "ref" => sim::Mode::Spec,
         _ => die("bad --mode"),
     };
+    if mode == "ref" {
+        // does the sequential reference itself terminate on this workload?
+        let ok = sim::reference(&case.workload).is_some();
+        let out = arg_val(args, "--out").unwrap_or_else(|| die("--out"));
+        let mut o = sim::run_workload(&workload::Workload::simple(1, 0, 0), sim::Mode::Spec);
+        o.class = if ok { "ok".into() } else { "skipped-reference-panicked".into() };
+        std::fs::write(out, serde_json::to_vec(&o).unwrap()).unwrap();
+        return 0;
+    }
     let o = sim::run_workload(&case.workload, m);
     let out = arg_val(args, "--out").unwrap_or_else(|| die("--out"));
     std::fs::write(out, serde_json::to_vec(&o).unwrap()).unwrap();
